@@ -48,7 +48,7 @@ def generate(rng, tier, focus):
             # put the second body almost half a box away from the first along one axis (near-tie side)
             ax = rng.randrange(3)
             ops.append({"op": "halfbox", "who": who, "axis": ax, "eps": rng.choice([-1, 1]) * rng.uniform(2e-6, 1e-3)})
-    forms = {"point": rng.choice(["array", "array", "list", "tuple"]), "box": rng.choice(["array", "array", "lists", "int_array"])}
+    forms = {"point": rng.choice(["array", "array", "list", "tuple"]), "box": rng.choice(["array", "array", "lists", "int_array", "fortran", "fortran", "view"])}
     if forms["box"] == "int_array":
         if kind in ("ortho", "cubic"):
             box = np.diag([float(max(1, round(x))) for x in np.diag(box)])     # integer edges, handed over as an int array
@@ -129,6 +129,14 @@ def execute(trace, ctx):
         elif forms.get("box") == "int_array":
             box_in = box.astype(np.int64)
             ctx.probe("box_as_integer_array")
+        elif forms.get("box") == "fortran":
+            box_in = np.asfortranarray(box)          # same values, column-major memory (a transposed view, a frame of a stack)
+            ctx.probe("box_fortran_ordered")
+        elif forms.get("box") == "view":
+            big = np.zeros((6, 6))
+            big[::2, ::2] = box
+            box_in = big[::2, ::2]                    # a strided, non-contiguous view
+            ctx.probe("box_non_contiguous_view")
         other = c1.copy() if trace.get("point_arg") else r[1]
         if trace.get("point_arg"):
             ctx.probe("point_argument")
@@ -166,11 +174,16 @@ def execute(trace, ctx):
             if np.any(np.round(frac) != 0):
                 ctx.probe("nonzero_image")
         # symmetry
-        back = float(r[1].distance_to(r[0], box_vects=box.copy()))
+        back = float(r[1].distance_to(r[0], box_vects=(np.asfortranarray(box) if forms.get("box") == "fortran" else box.copy())))
         if abs(back - got) > tol:
             ctx.violate(P, "symmetry", f"d(a,b)={got!r} but d(b,a)={back!r} (box {box.tolist()})")
         # inverse flag
-        gi = float(r[0].distance_to(other, box_vects=inv.copy(), inv=True))
+        inv_in = inv.copy()
+        if forms.get("box") == "fortran":
+            inv_in = np.asfortranarray(inv)
+        gi = float(r[0].distance_to(other, box_vects=inv_in, inv=True))
+        if not np.array_equal(np.asarray(inv_in), inv):
+            ctx.violate(P, "box-argument-modified", "distance_to(..., inv=True) modified the caller's inverse-box matrix")
         ctx.probe("inv_flag")
         if abs(gi - got) > tol:
             ctx.violate(P, "inverse-flag", f"with box: {got!r}, with inverse box and inv=True: {gi!r}")
